@@ -817,7 +817,7 @@ static void gen_expr(Node *node) {
     Member *mem = node->member;
     if (mem->is_bitfield) {
       println("  shl $%d, %%rax", 64 - mem->bit_width - mem->bit_offset);
-      if (mem->ty->is_unsigned)
+      if (mem->ty->is_unsigned || mem->ty->kind == TY_BOOL)
         println("  shr $%d, %%rax", 64 - mem->bit_width);
       else
         println("  sar $%d, %%rax", 64 - mem->bit_width);
@@ -862,7 +862,7 @@ static void gen_expr(Node *node) {
       // bitfield holds after the store, not the unconverted rhs.
       println("  mov %%r8, %%rax");
       println("  shl $%d, %%rax", 64 - mem->bit_width);
-      if (mem->ty->is_unsigned)
+      if (mem->ty->is_unsigned || mem->ty->kind == TY_BOOL)
         println("  shr $%d, %%rax", 64 - mem->bit_width);
       else
         println("  sar $%d, %%rax", 64 - mem->bit_width);
